@@ -360,7 +360,10 @@ def check(case):
                     # (a run that found nothing to do saves no version and records
                     # nothing: e.g. a wiped label whose change is already in the
                     # stored signature stays unrecorded)
-                    if created and want - got:
+                    # (... and that actually ran evolve(): on a brand-new database the
+                    # version row can come from Evolver.__init__ alone)
+                    evolved = any(t[0] == 'signal' and t[1] == 'evolving' for t in s['trace'])
+                    if created and evolved and want - got:
                         atoms.append(['pending_labels_not_recorded', kind,
                                       'fresh' if all(a in fresh_apps for a, _l in want - got)
                                       else 'installed'])
